@@ -343,6 +343,13 @@ Section Laws.
     rewrite <- !(g_assoc _ _ _ _ GL). reflexivity.
   Qed.
 
+  (* EPMeanFieldSubset.factor_approximation splits a rescaled variable's message as factor_dist = own^s and
+     cavity = cavity * own^(1-s): their product is still own * cavity, so model_eq is untouched by the split *)
+  Theorem rescale_split s o c : gadd (gscale s o) (gadd c (gscale (Q2Qc 1 - s)%Qc o)) = gadd o c.
+  Proof.
+    rewrite (g_comm _ _ _ _ GL c), (g_assoc _ _ _ _ GL), gscale_split. reflexivity.
+  Qed.
+
   (* ---------- sequences of updates ---------- *)
   Definition run_steps (steps : list (nat * delta * mf)) (st : state) : state :=
     fold_left (fun s x => step (fst (fst x)) (snd (fst x)) (snd x) s) steps st.
